@@ -8,10 +8,13 @@ package resolver
 //@ import ocispec "github.com/opencontainers/image-spec/specs-go/v1"
 //@ import digest "github.com/opencontainers/go-digest"
 //@ import errdef "oras.land/oras-go/v2/errdef"
+//@ import set "oras.land/oras-go/v2/internal/container/set"
+//@
+//@ pure isTagSetOf(m *Memory, o map[string]unit) bool = exists d digest.Digest :: d in m.tags && m.tags[d] == o
 //@
 //@ pure inTags(m *Memory, d digest.Digest, r string) bool = d in m.tags && r in m.tags[d]
 //@
-//@ pure resolverRI(m *Memory) bool = m != nil && m.index != nil && m.tags != nil
+//@ pure resolverRI(m *Memory) bool = m != nil && m.index != nil && m.tags != nil && alive(m.index) && alive(m.tags)
 //@      && (forall d digest.Digest, r string :: inTags(m, d, r) == (r in m.index && m.index[r].Digest == d))
 //@      && (forall d digest.Digest :: d in m.tags ==> len(m.tags[d]) > 0 && m.tags[d] != nil && alive(m.tags[d]))
 //@      && (forall a, b digest.Digest :: a in m.tags && b in m.tags && a != b ==> m.tags[a] != m.tags[b])
@@ -32,12 +35,16 @@ package resolver
 //@   ensures [C06,C09:view-values] m.index[reference] == desc && (forall r string :: r != reference ==> m.index[r] == old(m.index[r]))
 //@   ensures [C09:tags-consistent] resolverRI(m)
 //@   ensures [C06:no-error] result == nil
+//@   ensures [frame-sets] forall o map[string]unit :: old(alive(o)) && !old(isTagSetOf(m, o)) ==> (forall k string :: (k in o) == old(k in o)) && len(o) == old(len(o))
+//@   modifies map[string]ocispec.Descriptor@m.index, map[digest.Digest]set.Set[string]@m.tags, map[string]unit, alloc
 //@
 //@ func (*Memory).Untag
 //@   requires [ri] resolverRI(m)
 //@   ensures [C06,C09:view] forall r string :: (r in m.index) == (old(r in m.index) && r != reference)
 //@   ensures [C06,C09:view-values] forall r string :: r != reference ==> m.index[r] == old(m.index[r])
 //@   ensures [C09:tags-consistent] resolverRI(m)
+//@   ensures [frame-sets] forall o map[string]unit :: old(alive(o)) && !old(isTagSetOf(m, o)) ==> (forall k string :: (k in o) == old(k in o)) && len(o) == old(len(o))
+//@   modifies map[string]ocispec.Descriptor@m.index, map[digest.Digest]set.Set[string]@m.tags, map[string]unit
 //@
 //@ func (*Memory).TagSet
 //@   requires [ri] resolverRI(m)
@@ -48,5 +55,5 @@ package resolver
 //@ func (*Memory).Map
 //@   requires [ri] resolverRI(m)
 //@   ensures [C06:clone] forall r string :: (r in result) == (r in m.index) && (r in result ==> result[r] == m.index[r])
-//@   ensures [C06:fresh] result == nil || !old(alive(result))
+//@   ensures [C06:fresh] result != nil && !old(alive(result)) && alive(result)
 //@   modifies alloc, new map[string]unit, new map[string]ocispec.Descriptor
